@@ -23,6 +23,18 @@ Theorem C19_no_lost_wakeup :
 Proof. exact no_lost_wakeup. Qed.
 Print Assumptions C19_no_lost_wakeup.
 
+(** the same at the granularity of USER CALLBACKS (the awaiter's waker `clone` / `wake_by_ref`
+    are yield points, so the awaiter can be pre-empted inside the wakers lock and the completer
+    blocks on it): BOUNDED sweep by computation — one awaiter (either kind), every schedule of at
+    most 14 slots *)
+Theorem C19_no_lost_wakeup_callback_points_bounded :
+  forall (kind : bool) (sched : list nat),
+    (length sched <= 14)%nat -> Forall (fun t => (t < 2)%nat) sched ->
+    let u := urun (uinit [kind]) sched in
+    uterminalb u = true -> u_all_done u = true.
+Proof. exact no_lost_wakeup_callback_points_bounded. Qed.
+Print Assumptions C19_no_lost_wakeup_callback_points_bounded.
+
 (** the protocol before the fix (load `loading`; push the waker afterwards) loses a wake-up:
     F-C19, fixed in /repo; witness of length 6 *)
 Theorem C19_no_lost_wakeup_prefix_refuted :
@@ -72,6 +84,13 @@ Theorem C19_lock_order_notify_subs_prefix_refuted :
   exists sched, deadlocked (lrun1 (linit [e_rerun_sd; d_complete_prefix]) sched) = true.
 Proof. exact notify_subs_prefix_deadlocks. Qed.
 Print Assumptions C19_lock_order_notify_subs_prefix_refuted.
+
+(** with the subscribers of a memo walked under `reactivity.read()` (one site of the memo fix
+    reverted) the writer of s and the effect re-running on another thread deadlock *)
+Theorem C19_lock_order_memo_mark_prefix_refuted :
+  exists sched, deadlocked (lrun1 (linit [e_rerun_mt; s_set_me_prefix]) sched) = true.
+Proof. exact memo_mark_prefix_cross_thread_deadlock. Qed.
+Print Assumptions C19_lock_order_memo_mark_prefix_refuted.
 
 (** before the memo fix (F-C02-b, fixed in /repo by another check): a single thread writing a
     signal whose memo has an ImmediateEffect subscriber deadlocks with itself; with the
